@@ -125,7 +125,8 @@ class World:
                 base = "plz-out/bin" if t.get("binary") else "plz-out/gen"
                 outs = t["outs"] if t["kind"] != "text_file" else [t.get("out") or t["name"]]
                 for o in outs:
-                    h.update((o + " " + repr(simlib.snapshot(os.path.join(root, base, pkg, o)))).encode())
+                    # where an output lives (gen/ or bin/) is part of what dependants see
+                    h.update((base + "/" + o + " " + repr(simlib.snapshot(os.path.join(root, base, pkg, o)))).encode())
         memo[lab] = h.hexdigest()[:20]
         return memo[lab]
 
@@ -327,6 +328,31 @@ def op_quiet_salt(rng, spec):
     p, t = rng.choice(g)
     t["quiet"] = "q%d" % rng.intn(100000)
     return "quiet cmd change %s" % rs.label(p, t["name"])
+
+
+def op_dir_add_entry(rng, spec):
+    """Adds or removes an entry of a directory output."""
+    g = [(p, t) for p, t in _genrules(spec) if t.get("dir")]
+    if not g:
+        return None
+    p, t = rng.choice(g)
+    if len(t["dir"]) > 1 and rng.chance(0.4):
+        e = t["dir"].pop(rng.intn(len(t["dir"])))
+        t["dir"] = [o for o in t["dir"] if o.get("l") != e["p"]]
+        return "remove entry %s from dir output of %s" % (e["p"], rs.label(p, t["name"]))
+    n = "extra%d" % rng.intn(1000)
+    t["dir"].append({"p": rng.choice(["", "sub/", "sub/deep/"]) + n, "c": "added %d" % rng.intn(1000), "x": False})
+    return "add entry %s to dir output of %s" % (n, rs.label(p, t["name"]))
+
+
+def op_edit_content_len(rng, spec):
+    """Content edit that changes the file's length a lot (shorter or longer)."""
+    cands = [(p, f) for p in sorted(spec["pkgs"]) for f in sorted(spec["pkgs"][p]["files"])]
+    if not cands:
+        return None
+    p, f = rng.choice(cands)
+    spec["pkgs"][p]["files"][f] = ("L%d " % rng.intn(1000)) * rng.choice([1, 1, 40, 200]) + "\n"
+    return "edit %s/%s (new length %d)" % (p, f, len(spec["pkgs"][p]["files"][f]))
 
 
 EDIT_OPS = [op_edit_content, op_edit_content, op_change_salt, op_add_src, op_remove_src, op_rename_out, op_dir_rename, op_dir_rename,
